@@ -452,4 +452,52 @@ theorem holdingAlive_reachWL {p : Params} {s : State} (h : ReachWL p s) :
   | init => intro i hi; simp [init] at hi
   | step hr st ih => exact holdingAlive_step ih (inv_reach (reach_of_reachWL hr)) st
 
+/-- a lock context is cancelled (with `ErrLockSessionDone`) only after the lease was lost -/
+theorem cancelled_implies_lost {p : Params} {s : State} (h : Reach p s) :
+    ∀ i, s.ctx i = .cancelled → s.leaseAlive i = false := by
+  induction h with
+  | init => intro i hi; simp [init] at hi
+  | step hr st ih =>
+    cases st with
+    | acquire i m hidle hlease =>
+      intro j hj
+      rw [acquire_leaseAlive]
+      by_cases hji : j = i
+      · subst hji
+        rcases acquire_self p.ttl _ j m with ⟨_, _, _, hc⟩ | ⟨_, _, hc, _⟩
+        · rw [hc] at hj; cases hj
+        · rw [hc] at hj; exact ih j hj
+      · rw [acquire_ctx_other _ _ _ _ hji] at hj; exact ih j hj
+    | tryDelete i hi => intro j hj; exact ih j hj
+    | timeout i dl hi hdl => intro j hj; exact ih j hj
+    | waitDone i dl hi hno =>
+      intro j hj
+      unfold waitDone at hj ⊢
+      split at hj
+      · rename_i hc
+        rw [if_pos hc]
+        by_cases hji : j = i
+        · subst hji; simp [upd] at hj
+        · simp only [upd, hji, if_false] at hj; exact ih j hj
+      · rename_i hc; rw [if_neg hc]; exact ih j hj
+    | unlock i hi =>
+      intro j hj
+      simp only [unlock] at hj ⊢
+      by_cases hji : j = i
+      · subst hji; simp [upd]
+      · simp only [upd, hji, if_false]; exact ih j hj
+    | loseLease i hi =>
+      intro j hj
+      simp only [loseLease] at hj ⊢
+      by_cases hji : j = i
+      · subst hji; simp [upd]
+      · simp only [upd, hji, if_false]; exact ih j hj
+    | watch i hla hc hlk =>
+      intro j hj
+      simp only [watch] at hj ⊢
+      by_cases hji : j = i
+      · subst hji; exact hla
+      · simp only [upd, hji, if_false] at hj; exact ih j hj
+    | tick hg => exact ih
+
 end Eru.Lock.Etcd
